@@ -196,7 +196,7 @@ class C04(Check):
     thorough_examples = 25000
     matchers = {'variadic_or_posonly': variadic_or_posonly}
     rule = (
-        "[drawn in addition since rounds 13-15: registration with positional=True but without a context; the request alone, as an element of a batch, or of a sequentially served async batch] "
+        "[round 16: view methods named context / request / method / name / dispatcher] [drawn in addition since rounds 13-15: registration with positional=True but without a context; the request alone, as an element of a batch, or of a sequentially served async batch] "
         "cases: (a) enumerated: every python-valid signature of <= 2 (quick) / <= 3 (thorough) parameters over the kinds positional-only / "
         "positional-or-keyword / *args / keyword-only / **kw x with/without defaults, x every way of designating the context (none; by name "
         "at each valid positional position and as keyword-only; first positional with positional=True; class based view with and without "
